@@ -132,3 +132,7 @@ impl Default for IndexHeader {
         }
     }
 }
+
+#[cfg(any(kani, pearl_verif))]
+#[path = "/verif/kani/layout_index_header.rs"]
+mod verif_kani;
